@@ -168,6 +168,13 @@ def bounds(fb, rep, f):
                     if x.k == 'BinaryOperator' and x.o == '<' and render(strip(x.kids[0])) == ix.n:
                         lims.append(render(strip(x.kids[1])))
                 good = any(l in int_params or l == '*nnonzeros' for l in lims)
+                # an array named after rows / columns (colentries, colnums, rowdenoms ...) has <stem>size entries: that parameter, not the
+                # number of nonzeros that sits next to it, is the length of the dense array
+                own = [q for q in int_params if q.endswith('size') and b.n.startswith(q[:-4])]
+                if good and own and not any(l in own for l in lims):
+                    rep.bad('R20.2', key, wh, '%s has %s entries (soplex_interface.h), but the loop that subscripts it is bounded by %s: entries beyond that are dropped, or read beyond the array'
+                            % (b.n, own[0], lims))
+                    continue
                 rep.check(good, 'R20.2', key, wh, 'index bounded by %s' % lims, '%s is subscripted by %s whose loop is bounded by %s, not by a length the caller gave' % (b.n, ix.n, lims or txt))
     # pointer parameters handed to a C++ callee together with a length: the length is an int parameter
     for n in f.nodes:
